@@ -235,14 +235,12 @@ Proof.
   assert (Hc : nx_node (contract G u v) u = Some mine) by (rewrite nx_node_contract; assumption).
   assert (Kid : forall ps', keeps_identity mine ps' -> nle (nx_set_node (contract G u v) u ps') G).
   { intros ps' Hk. eapply nle_trans; [eapply nle_set_node; eauto | apply nle_contract]. }
-  assert (Knil : nle (nx_set_node (contract G u v) u []) G).
-  { eapply nle_trans; [|apply nle_contract]. intros g0 n0. unfold nx_set_node. simpl. apply cnt_set_node_nil. }
   destruct pol as [p|]; simpl.
   - destruct Hpol as [Hp1 Hp2]. destruct (merge_props p mine other mine) as [np|] eqn:Em; simpl.
     + apply Kid. intro x. unfold has_val.
       rewrite (merge_props_keeps p mine other mine np Hp1 Hp2 Em k_nodeid) by (now right).
       rewrite (merge_props_keeps p mine other mine np Hp1 Hp2 Em k_graphid) by (now left). split; reflexivity.
-    + exact Knil.
+    + apply nle_refl.
   - apply Kid. intro x. split; reflexivity.
 Qed.
 
